@@ -106,6 +106,8 @@ func init() {
 			checkGetOpts(r, prog, a16, "c18") // a rendering of any length is read back: no budget unless one is asked for
 			r.importing = "C03"
 			checkConnectives(r, prog, a16, "c03") // the grouping that was parsed is the grouping that is evaluated: every node with its own operator
+			r.importing = "C02"
+			checkEqualityTables(r, prog, a16, "c02") // `X == <quoted s>` is true of X = s: the text compared is the literal's, unmodified
 		}
 		r.importing = ""
 		r.Technique = "grammar analyses on the rule table: operator-exposure stratification, double-negation fold (typed AST of the action), strconv.Unquote of the whole match, choice shadowing by FIRST-set overlap, keyword boundary by FOLLOW sets"
